@@ -43,3 +43,11 @@ CASES = [
       "    KdLm = numpy.dot(Kd,Lm[m,:,:])\n    LdKm = numpy.dot(Ld[m,:,:],Km[m,:,:])",
       "    KdLm = Kd @ Lm[m,:,:]\n    LdKm = Ld[m,:,:] @ Km[m,:,:]"),
 ]
+
+CASES += [
+    m("time-independent tensor integrates one point short of the cut-off", "C07-D", R + "redfieldtensor.py",
+      "            tm = ta.data[0:tcut]", "            tm = ta.data[0:tcut-1]"),
+    {"name": "both tensors write the window without the explicit zero", "kind": "twin", "edits": [
+        (R + "redfieldtensor.py", "            tm = ta.data[0:tcut]", "            tm = ta.data[:tcut]", 1),
+        (R + "tdredfieldtensor.py", "            tm = ta.data[0:tcut]", "            tm = ta.data[:tcut]", 1)]},
+]
